@@ -8,8 +8,8 @@
    Convention on EMPTY keys: a bound that is set to the zero-length key counts as UNSET
    (start: from the beginning of the table, end: to the end of the table).  This is how the
    emulator's validation (validateRowRanges: len(key) == 0 means "not set") and the
-   clients read it; whether the scan agrees is a theorem (and for one shape it does not:
-   see [encode_range_closed_empty_end_refuted] in ScanProofs.v). *)
+   clients read it; that the scan agrees is a theorem ([encode_range_spec] in ScanProofs.v;
+   for an end closed at the empty key see [encode_range_closed_empty_end_unbounded]). *)
 From Coq Require Import List NArith Bool.
 Import ListNotations.
 From Emu.Common Require Import Bytes.
@@ -50,6 +50,3 @@ Definition requested (keys : list bytes) (ranges : list rowrange) (k : bytes) : 
 Definition range_inverted (rr : rowrange) : Prop :=
   exists s e, bound_key (rr_start rr) = Some s /\ bound_key (rr_end rr) = Some e
               /\ s <> [] /\ e <> [] /\ lex_lt e s.
-
-(* the one shape on which the emulator's scan and the convention above disagree *)
-Definition closed_end_nonempty (rr : rowrange) : Prop := rr_end rr <> BClosed [].
